@@ -27,6 +27,12 @@ def run():
     chk = Check("C07")
     chk.add_model("MutexCvMC/cv", vlib.model_check("MutexCvMC", "MutexCvMC_cv.cfg", timeout=900))
     chk.add_model("MutexCvMC/stop-token waits", vlib.model_check("MutexCvMC", "MutexCvMC_stop.cfg", timeout=900))
+    # fine-grained model of the user-level condition variable (user lock vs. internal lock vs. queue)
+    for cfg in ("CvImpl.cfg", "CvImpl_locked.cfg", "CvImpl_stoponly.cfg"):
+        chk.add_model("CvImpl/%s" % cfg[:-4], vlib.model_check("CvImpl", cfg, timeout=600))
+    for cfg in ("CvImpl_dev_ul.cfg", "CvImpl_dev_stop.cfg"):
+        r = vlib.model_check("CvImpl", cfg, expect_ok=False, timeout=600)
+        chk.add_model("CvImpl/variant %s (must violate)" % cfg[11:-4], r, note="violated: %s" % r["violated"])
     (binary,) = vlib.build_harness(["sync_harness"])
     nruns = 64 if chk.thorough() else 16
     nhist = 120 if chk.thorough() else 50
